@@ -81,31 +81,32 @@ def DpcmR.read (h : DpcmR) (c : Conv) (ty : Ty) (n : Nat) : DpcmR × Option (Lis
 structure VoxR where
   rest   : List Byte
   st     : Oki.St := {}
+  carry  : Option Int := none          -- VOX_PRIVATE.have_carry / carry: the second sample of the byte an odd call ended in
   pos    : Nat := 0
   frames : Nat
 
 def VoxR.open (data : List Byte) : VoxR := { rest := data, frames := 2 * data.length }
 
 /-- `vox_read_s/i/f/d` staging + the wrapper; `none` = whole request zero-filled -/
-def voxReadCall (chunk : Nat) : Nat → Oki.St → List Byte → Nat → Oki.St × List Byte × List Int × Nat
-  | 0, st, bytes, _ => (st, bytes, [], 0)
-  | fuel + 1, st, bytes, n =>
-    if n = 0 then (st, bytes, [], 0)
+def voxReadCall (chunk : Nat) : Nat → Oki.St → Option Int → List Byte → Nat → Oki.St × Option Int × List Byte × List Int × Nat
+  | 0, st, c, bytes, _ => (st, c, bytes, [], 0)
+  | fuel + 1, st, c, bytes, n =>
+    if n = 0 then (st, c, bytes, [], 0)
     else
       let rc := if chunk = 0 then n else min chunk n
-      let (s1, rest, xs, cnt) := Oki.readBlock (rc + 1) st bytes rc
-      if cnt ≠ rc then (s1, rest, xs, cnt)
+      let (s1, c1, rest, xs, cnt) := Oki.readBlock (rc + 1) st c bytes rc
+      if cnt ≠ rc then (s1, c1, rest, xs, cnt)
       else
-        let (s2, rest2, ys, t) := voxReadCall chunk fuel s1 rest (n - rc)
-        (s2, rest2, xs ++ ys, cnt + t)
+        let (s2, c2, rest2, ys, t) := voxReadCall chunk fuel s1 c1 rest (n - rc)
+        (s2, c2, rest2, xs ++ ys, cnt + t)
 
 def VoxR.read (h : VoxR) (c : Conv) (ty : Ty) (n : Nat) : VoxR × Option (List Int) × Nat :=
   if n = 0 then (h, some [], 0)
   else if h.pos ≥ h.frames then (h, none, 0)
   else
-    let (s, rest, xs, cnt) := voxReadCall (Oki.chunkOf ty) (n + 1) h.st h.rest n
+    let (s, cy, rest, xs, cnt) := voxReadCall (Oki.chunkOf ty) (n + 1) h.st h.carry h.rest n
     let ret := if cnt ≤ h.frames - h.pos then cnt else h.frames - h.pos
-    ({ h with rest := rest, st := s, pos := if cnt ≤ h.frames - h.pos then h.pos + cnt else h.frames },
+    ({ h with rest := rest, st := s, carry := cy, pos := if cnt ≤ h.frames - h.pos then h.pos + cnt else h.frames },
      some ((xs.take ret).map (Oki.toCaller c ty)), ret)
 
 end Sf.Block
